@@ -22,6 +22,7 @@ int main()
     {
         if (line.empty())
             continue;
+        vh::case_alarm(20);
         auto f = vh::fields(line);
         int cap = std::stoi(f["cap"]);
         open_heap h(cap);
